@@ -43,6 +43,7 @@ type chaos struct {
 	userDec  []string
 	viol     []string
 	known    []string
+	rawDecor bool // a hand-assembled decoration is in use: the text output oracle does not apply
 	hostile  bool // an alignment value that is no Alignment, a hand-assembled decoration: outside every property's domain
 }
 
@@ -419,7 +420,7 @@ func (s *chaos) settings() {
 				}
 			}
 			g.do("setdecor " + w.tok + " " + showDecor(d))
-			s.leave()
+			s.rawDecor = true // no rectangle is promised for it, but totality (C09) is: compared with the model as usual
 		}
 	case q < 4:
 		w := s.wrapper("html")
@@ -512,6 +513,15 @@ func (s *chaos) judge(kind string, w chaosW, res string) {
 		v = oracleMD(g, w.t, res)
 	case "html":
 		v = oracleHTML(g, w.t, w.tok, res)
+	case "text":
+		if cl, _ := parseRes(res); strings.HasPrefix(cl, "err") && g.x.wrappers[idOf(w.tok)].decor == decoration.EmptyDecoration {
+			break // set to a name nobody registered (or registered as empty): refused, as it must be
+		}
+		if !s.rawDecor {
+			var k []string
+			v, k = oracleText(g, w.t, w.tok, res, true)
+			s.known = append(s.known, k...)
+		}
 	}
 	for _, m := range v {
 		s.viol = append(s.viol, "chaos: "+m)
